@@ -1,9 +1,10 @@
 SPECIFICATION Spec
 CONSTANTS
   Pairs <- PairsQuick
-  AllPython = FALSE
+  PairsRef <- PairsRefQuick
   Dump = TRUE
 INVARIANT RefShape
+INVARIANT RefIsCPythonOnPlainClasses
 INVARIANT ImplAgreesOffHazards
 INVARIANT Publish
 CHECK_DEADLOCK FALSE
